@@ -371,4 +371,109 @@ theorem seq_refines {d L r : Nat} {key : List Nat} (hdom : Dom d L r key) (hd : 
   rw [hC1, packWords_ofWords, chop_refines d hd _ hC2]
   simp only [Spec.Md6.seq, hj, Spec.Md6.c]
 
+theorem length_flatMap_const {α β : Type} (l : List α) (g : α → List β) (c : Nat) (h : ∀ a ∈ l, (g a).length = c) :
+    (l.flatMap g).length = c * l.length := by
+  induction l with
+  | nil => simp
+  | cons a l ih =>
+    rw [List.flatMap_cons, List.length_append, h a (by simp), ih (fun b hb => h b (by simp [hb])), List.length_cons]
+    rw [Nat.mul_add, Nat.mul_one, Nat.add_comm]
+
+theorem par_length (P : Spec.Md6.Params) (hr : 1 ≤ P.r) (level : Nat) (M : List Nat) (m : Nat) :
+    (Spec.Md6.par P level M m).length = 16 * Spec.Md6.numBlocks 4096 m := by
+  unfold Spec.Md6.par
+  simp only []
+  rw [length_flatMap_const _ _ 16 (fun i _ => compress_length P.r hr _), List.length_range]
+
+theorem loop_refines {d L r : Nat} {key : List Nat} (hdom : Dom d L r key) (hd : d ≤ 1024) (fuel : Nat) :
+    ∀ (l : Nat) (M : List Nat) (bitlen : Option Nat), l ≤ L → (∀ x ∈ M, x < 256) →
+      bitlen.getD (8 * M.length) ≤ 8 * M.length → 8 * M.length < 2 ^ 64 →
+      (bitlen.getD (8 * M.length) + 7) / 8 ≤ 512 + fuel →
+      levelLoop (Md6.new d key L (some r)) (fuel + 1) l M bitlen =
+        .ok (Spec.Md6.chop d (Spec.Md6.levels ⟨d, key, L, r⟩ (fuel + 1) (l + 1) M (bitlen.getD (8 * M.length)))) := by
+  induction fuel with
+  | zero =>
+    intro l M bitlen hl hM hbl hlen hfuel
+    generalize hm : bitlen.getD (8 * M.length) = m at hbl hfuel
+    have hL' : (Md6.new d key L (some r)).L = L := rfl
+    have hsz : (Md6.new d key L (some r)).size = d := rfl
+    unfold levelLoop Spec.Md6.levels
+    simp only [hL', hsz, Nat.add_right_cancel_iff]
+    by_cases hlL : l = L
+    · rw [if_pos hlL, if_pos hlL, seq_refines hdom hd M hM bitlen (by rw [hm]; exact hbl) hlen, hm]
+    · rw [if_neg hlL, if_neg hlL]
+      have hpar := par_refines hdom (l + 1) (by have := hdom.hL; omega) M hM bitlen (by rw [hm]; exact hbl) hlen
+      rw [hm] at hpar
+      rw [hpar]
+      have hj : Spec.Md6.numBlocks 4096 m = 1 := by
+        have h := Md6Pad.numBlocks_eq 512 m (by omega)
+        simp only [show 8 * 512 = 4096 from rfl] at h
+        rw [h]; split
+        · rfl
+        · have : (m - 1) / 4096 = 0 := Nat.div_eq_of_lt (by omega)
+          omega
+      have hpl := par_length ⟨d, key, L, r⟩ hdom.hr1 (l + 1) M m
+      rw [hj] at hpl
+      simp only [bind, Except.bind, ofWords_length, hpl, Spec.Md6.c, if_true]
+      exact chop_refines d hd _ hpl
+  | succ fuel ih =>
+    intro l M bitlen hl hM hbl hlen hfuel
+    generalize hm : bitlen.getD (8 * M.length) = m at hbl hfuel
+    have hL' : (Md6.new d key L (some r)).L = L := rfl
+    have hsz : (Md6.new d key L (some r)).size = d := rfl
+    unfold levelLoop Spec.Md6.levels
+    simp only [hL', hsz, Nat.add_right_cancel_iff]
+    by_cases hlL : l = L
+    · rw [if_pos hlL, if_pos hlL, seq_refines hdom hd M hM bitlen (by rw [hm]; exact hbl) hlen, hm]
+    · rw [if_neg hlL, if_neg hlL]
+      have hpar := par_refines hdom (l + 1) (by have := hdom.hL; omega) M hM bitlen (by rw [hm]; exact hbl) hlen
+      rw [hm] at hpar
+      rw [hpar]
+      have hpl := par_length ⟨d, key, L, r⟩ hdom.hr1 (l + 1) M m
+      simp only [bind, Except.bind, ofWords_length, Spec.Md6.c]
+      by_cases hj : Spec.Md6.numBlocks 4096 m = 1
+      · rw [hj] at hpl
+        simp only [hpl, if_true]
+        exact chop_refines d hd _ hpl
+      · have hne : ¬ (Spec.Md6.par ⟨d, key, L, r⟩ (l + 1) M m).length = 16 := by rw [hpl]; omega
+        have hne2 : ¬ 8 * (Spec.Md6.par ⟨d, key, L, r⟩ (l + 1) M m).length = 128 := by omega
+        simp only [hne, hne2, if_false]
+        have hjj := Md6Pad.numBlocks_eq 512 m (by omega)
+        simp only [show 8 * 512 = 4096 from rfl] at hjj
+        have hjle := numBlocks_le 512 m (by omega)
+        simp only [show 8 * 512 = 4096 from rfl] at hjle
+        have := ih (l + 1) (Spec.Md6.ofWords (Spec.Md6.par ⟨d, key, L, r⟩ (l + 1) M m)) none (by omega)
+          (ofWords_lt _) (by simp) (by rw [ofWords_length, hpl]; omega)
+          (by
+            simp only [Option.getD_none, ofWords_length, hpl]
+            split at hjj
+            · omega
+            · omega)
+        simp only [Option.getD_none, ofWords_length] at this
+        rw [this]
+        congr 3
+        omega
+
+/-- an explicit bit length beyond the end of the message is refused by the padder, for either block size -/
+theorem nullBlocks_too_long (B : Nat) (M : List Nat) (b : Nat) (hb : 8 * M.length < b) :
+    ∃ e, Md6.nullBlocks B M (some b) = .error e := by
+  refine ⟨"PaddingError:input bitlen mismatch", ?_⟩
+  unfold Md6.nullBlocks Padder.iterblocks
+  simp [hb]
+
+theorem chop_low_bits (d : Nat) (h8 : d % 8 ≠ 0) (C : List Spec.Md6.Word) :
+    (Spec.Md6.chop d C).getD (d / 8) 0 % 2 ^ (8 - d % 8) = 0 := by
+  unfold Spec.Md6.chop
+  simp only
+  have hnb : (d + 7) / 8 = d / 8 + 1 := by omega
+  have hi : d / 8 < (d + 7) / 8 := by omega
+  rw [List.getD_eq_getElem?_getD, List.getElem?_map, List.getElem?_range hi]
+  simp only [Option.map_some, Option.getD_some, hnb, Nat.add_sub_cancel, Nat.sub_self, Nat.pow_zero, Nat.div_one]
+  have e : 8 * (d / 8 + 1) - d = 8 - d % 8 := by omega
+  rw [e]
+  generalize List.foldl (fun acc x => acc * 256 + x) 0 (Spec.Md6.ofWords C) % 2 ^ d = x
+  have h256 : (256 : Nat) = 2 ^ (d % 8) * 2 ^ (8 - d % 8) := by
+    rw [← Nat.pow_add, show d % 8 + (8 - d % 8) = 8 by omega]
+  rw [h256, Nat.mod_mul_left_mod, Nat.mul_mod_left]
+
 end Proofs.Lemmas.Md6Mode
